@@ -317,8 +317,8 @@ func raceCompanion(a *vh.Args) {
 		return a, nil
 	}
 	t0 := time.Now()
-	var n int64
-	for it := 0; time.Since(t0) < a.Budget/4; it++ {
+	var n, stuck int64
+	for it := 0; time.Since(t0) < a.Budget/4 && stuck < 4; it++ {
 		var wg sync.WaitGroup
 		for k := 0; k < 2; k++ {
 			k := k
@@ -350,7 +350,14 @@ func raceCompanion(a *vh.Args) {
 					time.Sleep(200 * time.Microsecond)
 					cl.Close()
 				}
-				<-done
+				select {
+				case <-done:
+				case <-time.After(5 * time.Second):
+					// the relay did not end although both peers are gone: not this companion's business (the
+					// exhaustive search decides that); release what we hold and go on
+					atomic.AddInt64(&stuck, 1)
+					st.Close()
+				}
 				atomic.AddInt64(&n, 1)
 			}()
 		}
